@@ -20,80 +20,37 @@ theorem getq_ne_garbled (q : List (String × QV)) (k : String) : getq q k ≠ .g
 @[simp] theorem valid_bne_garbled (v : Val) : (QV.valid v != QV.garbled) = true := by simp
 @[simp] theorem empty_bne_garbled : (QV.empty != QV.garbled) = true := by decide
 
-theorem mode_of_S {q : List (String × QV)} {m : Mode} (h : S.mode q = some m) : M.mode q = m := by
-  unfold S.mode at h; unfold M.mode
-  split at h <;> simp_all
+/-- since b5b684c the code reads the options exactly as the strict reading does; what is left apart is a
+    pin option whose value has a malformed escape: `Get` does not see it (the handlers that parse options refuse
+    the whole query string instead, `hasGarbled`) -/
+theorem carried_eq (q : List (String × QV)) (md : List (Nat × Nat)) :
+    carried q md = if garbledOption q then none else fromQuery q md := rfl
 
-theorem intParam_empty (d : Int) : intParam .empty d = some d := rfl
-
-theorem factors_of_S {q : List (String × QV)} {f : Int × Int} (h : S.factors q = some f) : M.factors q = some f := by
-  unfold S.factors at h; unfold M.factors
-  split at h
-  · rename_i a b ha hb
-    split at h
-    · rename_i hr; simp_all
-    · rename_i i hr
-      simp only [hr]
-      simp_all [intParam]
-    · simp at h
-  · simp at h
-
-theorem ualloc_of_S {q : List (String × QV)} {l : List Nat} (h : S.ualloc q = some l) : M.ualloc q = l := by
-  unfold S.ualloc at h; unfold M.ualloc
-  split at h
-  · rename_i hq; simp_all
-  · rename_i l' hq
-    split at h <;> simp_all
-  · simp at h
-
-theorem expiry_of_S {q : List (String × QV)} {e : Expiry} (h : S.expiry q = some e) : M.expiry q = some e := by
-  unfold S.expiry S.expireIn at h; unfold M.expiry
-  split at h
-  · simp at h
-  · rename_i ein hein
-    split at h
-    · rename_i hat
-      simp only [hat]
-      split at hein
-      · rename_i hin; injection hein with hein; subst hein; simp [hin] at h ⊢; exact h
-      · rename_i k hin; injection hein with hein; subst hein; simp [hin] at h ⊢; exact h
-      · simp at hein
-    · rename_i e' hat; simp_all
-    · simp at h
+theorem garbledOption_hasGarbled {q : List (String × QV)} (h : garbledOption q = true) : hasGarbled q = true := by
+  unfold garbledOption at h; unfold hasGarbled
+  obtain ⟨p, hp, hpp⟩ := List.any_eq_true.mp h
+  simp only [Bool.and_eq_true] at hpp
+  exact List.any_eq_true.mpr ⟨p, hp, hpp.1⟩
 
 theorem fromQuery_of_carried {q : List (String × QV)} {md : List (Nat × Nat)} {o : Opts}
     (h : carried q md = some o) : fromQuery q md = some o := by
-  unfold carried at h
+  rw [carried_eq] at h
   split at h
   · simp at h
-  unfold assemble at h
-  split at h
-  · rename_i m f sh ua e u og hm hf hsh hua he hu hog
-    unfold fromQuery
-    rw [factors_of_S hf, ualloc_of_S hua, expiry_of_S he, mode_of_S hm, hsh, hu, hog]
-    simpa [assemble] using h
-  · simp at h
+  · exact h
 
-/-- the code accepts options the strict reading calls undecodable (K21) -/
-def lenient (r : Req) : Bool := (carried r.query r.md).isNone && (fromQuery r.query r.md).isSome
+theorem carried_of_fromQuery {q : List (String × QV)} {md : List (Nat × Nat)} {o : Opts}
+    (hg : hasGarbled q = false) (h : fromQuery q md = some o) : carried q md = some o := by
+  rw [carried_eq]
+  have : garbledOption q = false := by
+    cases hgo : garbledOption q with
+    | false => rfl
+    | true => rw [garbledOption_hasGarbled hgo] at hg; exact absurd hg (by decide)
+  simp [this, h]
 
-theorem fromQuery_none_of_carried_none {r : Req} (hl : lenient r = false)
-    (h : carried r.query r.md = none) : fromQuery r.query r.md = none := by
-  unfold lenient at hl
-  cases hf : fromQuery r.query r.md with
-  | none => rfl
-  | some o => simp [h, hf] at hl
-
-theorem carried_mode {q : List (String × QV)} {md : List (Nat × Nat)} {o : Opts}
-    (h : carried q md = some o) : S.mode q = some o.mode := by
-  unfold carried at h
-  split at h
-  · simp at h
-  unfold assemble at h
-  split at h
-  · rename_i m f sh ua e u og hm hf hsh hua he hu hog
-    simp at h; subst h; simpa using hm
-  · simp at h
+theorem carried_none_of_fromQuery_none {q : List (String × QV)} {md : List (Nat × Nat)}
+    (h : fromQuery q md = none) : carried q md = none := by
+  rw [carried_eq]; split <;> simp [h]
 
 /-! ### handlers against the expectation of their route -/
 
@@ -183,34 +140,53 @@ theorem localNames_mem (r : Req) (op opl : String) :
 /-- the CID of the `{hash}` variable -/
 abbrev cidOpt (r : Req) (pat : List PSeg) : Option Nat := (varSeg "hash" pat r.segs).bind (·.cid)
 
+/-- the parse helper refused although the path part decoded: the query string does not parse, or an option does not -/
+def queryRefused (r : Req) : Prop := hasGarbled r.query = true ∨ fromQuery r.query r.md = none
+
 theorem parseCid_cases (r : Req) (pat : List PSeg) :
     (cidOpt r pat = none ∧ parseCid r pat = none) ∨
-    (∃ c, cidOpt r pat = some c ∧ fromQuery r.query r.md = none ∧ parseCid r pat = none) ∨
-    (∃ c o, cidOpt r pat = some c ∧ fromQuery r.query r.md = some o ∧
+    (∃ c, cidOpt r pat = some c ∧ queryRefused r ∧ parseCid r pat = none) ∨
+    (∃ c o, cidOpt r pat = some c ∧ hasGarbled r.query = false ∧ fromQuery r.query r.md = some o ∧
       parseCid r pat = some (pinWithOpts c o)) := by
-  unfold parseCid cidOpt
+  unfold parseCid cidOpt queryRefused
   cases hc : (varSeg "hash" pat r.segs).bind (·.cid) with
   | none => simp
   | some c =>
-    cases hf : fromQuery r.query r.md with
-    | none => simp
-    | some o => simp
+    cases hg : hasGarbled r.query with
+    | true => simp
+    | false =>
+      cases hf : fromQuery r.query r.md with
+      | none => simp
+      | some o => simp
 
 theorem parsePinPath_cases (r : Req) (pat : List PSeg) :
     (pathOf pat r.segs = none ∧ parsePinPath r pat = none) ∨
-    (∃ p, pathOf pat r.segs = some p ∧ fromQuery r.query r.md = none ∧ parsePinPath r pat = none) ∨
-    (∃ p o, pathOf pat r.segs = some p ∧ fromQuery r.query r.md = some o ∧ parsePinPath r pat = some (p, o)) := by
-  unfold parsePinPath
+    (∃ p, pathOf pat r.segs = some p ∧ queryRefused r ∧ parsePinPath r pat = none) ∨
+    (∃ p o, pathOf pat r.segs = some p ∧ hasGarbled r.query = false ∧ fromQuery r.query r.md = some o ∧
+      parsePinPath r pat = some (p, o)) := by
+  unfold parsePinPath queryRefused
   cases hc : pathOf pat r.segs with
   | none => simp
   | some c =>
-    cases hf : fromQuery r.query r.md with
-    | none => simp
-    | some o => simp
+    cases hg : hasGarbled r.query with
+    | true => simp
+    | false =>
+      cases hf : fromQuery r.query r.md with
+      | none => simp
+      | some o => simp
 
-theorem junk_of_fromQuery_none {r : Req} (h : fromQuery r.query r.md = none) :
-    (optsBad r || localBad r || filterBad r) = true := by
-  simp [optsBad_of_fromQuery_none h]
+theorem junk_of_refused {r : Req} (h : queryRefused r) :
+    (optsBad r || localBad r || filterBad r || hasGarbled r.query) = true := by
+  rcases h with h | h
+  · simp [h]
+  · simp [optsBad_of_fromQuery_none h]
+
+/-- for the routes that carry pin options: a refused query is malformed for the strict reading, or junk -/
+theorem pinVerdict_of_refused {r : Req} (h : queryRefused r) :
+    carried r.query r.md = none ∨ (localBad r || filterBad r || hasGarbled r.query) = true := by
+  rcases h with h | h
+  · right; simp [h]
+  · left; exact carried_none_of_fromQuery_none h
 
 theorem ok_unit (e : Expect) (r : Req) (n : String) (hs : Shape.unit n = e.shape) :
     conforms (verdict e r) (call r n .unit) = true := by
@@ -239,9 +215,9 @@ theorem ok_cidArg (e : Expect) (r : Req) (n : String) (a b c d : Nat) (hs : Shap
        | some p => respond r ⟨n, .cid p.cid⟩ a b c d
        | none => refuse 400) = true := by
   unfold verdict; rw [← hs]
-  rcases parseCid_cases r e.pat with ⟨hc, hp⟩ | ⟨c, hc, hf, hp⟩ | ⟨c, o, hc, hf, hp⟩
+  rcases parseCid_cases r e.pat with ⟨hc, hp⟩ | ⟨c, hc, hf, hp⟩ | ⟨c, o, hc, _, hf, hp⟩
   · simp only [cidOpt] at hc; simp only [hc, hp]; exact conforms_malformed_refuse
-  · simp only [cidOpt] at hc; simp only [hc, hp, junk_of_fromQuery_none hf]; exact conforms_decide'_refuse _
+  · simp only [cidOpt] at hc; simp only [hc, hp, junk_of_refused hf]; exact conforms_decide'_refuse _
   · simp only [cidOpt] at hc; simp only [hc, hp]
     exact conforms_decide'_respond (by simp [Want.ok, pinWithOpts])
 
@@ -251,9 +227,9 @@ theorem ok_localCid (e : Expect) (r : Req) (n nl : String) (hs : Shape.localCid 
        | some p => call r (if isLocal r then nl else n) (.cid p.cid)
        | none => refuse 400) = true := by
   unfold verdict; rw [← hs]
-  rcases parseCid_cases r e.pat with ⟨hc, hp⟩ | ⟨c, hc, hf, hp⟩ | ⟨c, o, hc, hf, hp⟩
+  rcases parseCid_cases r e.pat with ⟨hc, hp⟩ | ⟨c, hc, hf, hp⟩ | ⟨c, o, hc, _, hf, hp⟩
   · simp only [cidOpt] at hc; simp only [hc, hp]; exact conforms_malformed_refuse
-  · simp only [cidOpt] at hc; simp only [hc, hp, junk_of_fromQuery_none hf]; exact conforms_decide'_refuse _
+  · simp only [cidOpt] at hc; simp only [hc, hp, junk_of_refused hf]; exact conforms_decide'_refuse _
   · simp only [cidOpt] at hc; simp only [hc, hp]
     exact conforms_decide'_respond (by simp [Want.ok, pinWithOpts, localNames_mem])
 
@@ -263,9 +239,9 @@ theorem ok_unpin (e : Expect) (r : Req) (n : String) (a b c d : Nat) (hs : Shape
        | some p => respond r ⟨n, pinArg p⟩ a b c d
        | none => refuse 400) = true := by
   unfold verdict; rw [← hs]
-  rcases parseCid_cases r e.pat with ⟨hc, hp⟩ | ⟨c, hc, hf, hp⟩ | ⟨c, o, hc, hf, hp⟩
+  rcases parseCid_cases r e.pat with ⟨hc, hp⟩ | ⟨c, hc, hf, hp⟩ | ⟨c, o, hc, _, hf, hp⟩
   · simp only [cidOpt] at hc; simp only [hc, hp]; exact conforms_malformed_refuse
-  · simp only [cidOpt] at hc; simp only [hc, hp, junk_of_fromQuery_none hf]; exact conforms_decide'_refuse _
+  · simp only [cidOpt] at hc; simp only [hc, hp, junk_of_refused hf]; exact conforms_decide'_refuse _
   · simp only [cidOpt] at hc; simp only [hc, hp]
     exact conforms_decide'_respond (by simp [Want.ok, pinArg, pinWithOpts])
 
@@ -309,55 +285,44 @@ theorem ok_add (e : Expect) (r : Req) (hs : Shape.add = e.shape) :
     conforms (verdict e r) (runHandler .add r e.pat) = true := by
   unfold verdict runHandler; rw [← hs]; exact conforms_malformed_refuse
 
-/-- the CID pin route: needs the options the strict reading accepts to be the ones the code reads
-    (`lenient = false`, K21) -/
-theorem ok_pin (e : Expect) (r : Req) (hs : Shape.pin "Cluster.Pin" = e.shape)
-    (hl : lenient r = false) :
+/-- the CID pin route -/
+theorem ok_pin (e : Expect) (r : Req) (hs : Shape.pin "Cluster.Pin" = e.shape) :
     conforms (verdict e r) (runHandler .pin r e.pat) = true := by
   unfold verdict runHandler; rw [← hs]
-  rcases parseCid_cases r e.pat with ⟨hc, hp⟩ | ⟨c, hc, hf, hp⟩ | ⟨c, o, hc, hf, hp⟩
+  rcases parseCid_cases r e.pat with ⟨hc, hp⟩ | ⟨c, hc, hf, hp⟩ | ⟨c, o, hc, hg, hf, hp⟩
   · simp only [cidOpt] at hc; simp only [hc, hp]; exact conforms_malformed_refuse
   · simp only [cidOpt] at hc
-    have hcar : carried r.query r.md = none := by
-      cases hcar : carried r.query r.md with
-      | none => rfl
-      | some o => rw [fromQuery_of_carried hcar] at hf; simp at hf
-    simp only [hc, hp, hcar]; exact conforms_malformed_refuse
+    rcases pinVerdict_of_refused hf with hcar | hj
+    · simp only [hc, hp, hcar]; exact conforms_malformed_refuse
+    · cases hcar : carried r.query r.md with
+      | none => simp only [hc, hp]; exact conforms_malformed_refuse
+      | some o => simp only [hc, hp, hj]; exact conforms_decide'_refuse _
   · simp only [cidOpt] at hc
-    cases hcar : carried r.query r.md with
-    | none => rw [fromQuery_none_of_carried_none hl hcar] at hf; simp at hf
-    | some o' =>
-      have ho : o' = o := by rw [fromQuery_of_carried hcar] at hf; simpa using hf
-      subst ho
-      simp only [hc, hp]
-      refine conforms_decide'_respond ?_
-      cases hmo : o'.mode <;> simp [Want.ok, pinArg, pinWithOpts, depthToMode, modeToDepth, hmo]
+    have hcar := carried_of_fromQuery hg hf
+    simp only [hc, hp, hcar]
+    refine conforms_decide'_respond ?_
+    cases hmo : o.mode <;> simp [Want.ok, pinArg, pinWithOpts, depthToMode, modeToDepth, hmo]
 
-theorem ok_pinPath (e : Expect) (r : Req) (hs : Shape.pinPath "Cluster.PinPath" = e.shape)
-    (hl : lenient r = false) :
+theorem ok_pinPath (e : Expect) (r : Req) (hs : Shape.pinPath "Cluster.PinPath" = e.shape) :
     conforms (verdict e r) (runHandler .pinPath r e.pat) = true := by
   unfold verdict runHandler; rw [← hs]
-  rcases parsePinPath_cases r e.pat with ⟨hc, hp⟩ | ⟨c, hc, hf, hp⟩ | ⟨c, o, hc, hf, hp⟩
+  rcases parsePinPath_cases r e.pat with ⟨hc, hp⟩ | ⟨c, hc, hf, hp⟩ | ⟨c, o, hc, hg, hf, hp⟩
   · simp only [hc, hp]; exact conforms_malformed_refuse
-  · have hcar : carried r.query r.md = none := by
-      cases hcar : carried r.query r.md with
-      | none => rfl
-      | some o => rw [fromQuery_of_carried hcar] at hf; simp at hf
-    simp only [hc, hp, hcar]; exact conforms_malformed_refuse
-  · cases hcar : carried r.query r.md with
-    | none => rw [fromQuery_none_of_carried_none hl hcar] at hf; simp at hf
-    | some o' =>
-      have ho : o' = o := by rw [fromQuery_of_carried hcar] at hf; simpa using hf
-      subst ho
-      simp only [hc, hp]
-      exact conforms_decide'_respond (by simp [Want.ok])
+  · rcases pinVerdict_of_refused hf with hcar | hj
+    · simp only [hc, hp, hcar]; exact conforms_malformed_refuse
+    · cases hcar : carried r.query r.md with
+      | none => simp only [hc, hp]; exact conforms_malformed_refuse
+      | some o => simp only [hc, hp, hj]; exact conforms_decide'_refuse _
+  · have hcar := carried_of_fromQuery hg hf
+    simp only [hc, hp, hcar]
+    exact conforms_decide'_respond (by simp [Want.ok])
 
 theorem ok_unpinPath (e : Expect) (r : Req) (hs : Shape.unpinPath "Cluster.UnpinPath" = e.shape) :
     conforms (verdict e r) (runHandler .unpinPath r e.pat) = true := by
   unfold verdict runHandler; rw [← hs]
-  rcases parsePinPath_cases r e.pat with ⟨hc, hp⟩ | ⟨c, hc, hf, hp⟩ | ⟨c, o, hc, hf, hp⟩
+  rcases parsePinPath_cases r e.pat with ⟨hc, hp⟩ | ⟨c, hc, hf, hp⟩ | ⟨c, o, hc, _, hf, hp⟩
   · simp only [hc, hp]; exact conforms_malformed_refuse
-  · simp only [hc, hp, junk_of_fromQuery_none hf]; exact conforms_decide'_refuse _
+  · simp only [hc, hp, junk_of_refused hf]; exact conforms_decide'_refuse _
   · simp only [hc, hp]
     exact conforms_decide'_respond (by simp [Want.ok])
 
@@ -375,9 +340,8 @@ theorem wellShaped_handler (h : Handler) (r : Req) (pat : List PSeg) : wellShape
                        | (split <;> first | exact wellShaped_call _ _ _ | exact w400))
 
 /-- every handler in the table, run on a request that reached it, conforms to the expectation of the
-    shape it implements (K21 excluded by hypothesis) -/
-theorem handler_ok (h : Handler) (e : Expect) (r : Req) (hs : shapeOf h = some e.shape)
-    (hl : lenient r = false) :
+    shape it implements -/
+theorem handler_ok (h : Handler) (e : Expect) (r : Req) (hs : shapeOf h = some e.shape) :
     conforms (verdict e r) (runHandler h r e.pat) = true := by
   cases h <;> simp only [shapeOf, Option.some.injEq] at hs
   case id => exact ok_unit e r _ hs
@@ -395,8 +359,8 @@ theorem handler_ok (h : Handler) (e : Expect) (r : Req) (hs : shapeOf h = some e
   case recover => exact ok_localCid e r _ _ hs
   case recoverAll => exact ok_localUnit e r _ _ hs
   case status => exact ok_localCid e r _ _ hs
-  case pin => exact ok_pin e r hs hl
-  case pinPath => exact ok_pinPath e r hs hl
+  case pin => exact ok_pin e r hs
+  case pinPath => exact ok_pinPath e r hs
   case unpin => exact ok_unpin e r _ _ _ _ _ hs
   case unpinPath => exact ok_unpinPath e r hs
   case repoGC => exact ok_localUnit e r _ _ hs
@@ -631,6 +595,60 @@ theorem router_cases (t : List Route) (hal : aligned t expectations = true) (r :
 
 /-! ### the bundled client -/
 
+theorem testBit_foldl_lor (l : List Nat) (a i : Nat) :
+    (l.foldl (· ||| ·) a).testBit i = (a.testBit i || l.any (fun k => k.testBit i)) := by
+  induction l generalizing a with
+  | nil => simp
+  | cons x xs ih => simp [List.foldl_cons, ih, Nat.testBit_or, Bool.or_assoc]
+
+theorem and_two_pow_of_testBit {m i : Nat} (h : m.testBit i = true) : 2 ^ i &&& m = 2 ^ i := by
+  apply Nat.eq_of_testBit_eq
+  intro j
+  rw [Nat.testBit_and, Nat.testBit_two_pow]
+  by_cases hij : i = j
+  · subst hij; simp [h]
+  · simp [hij]
+
+theorem two_pow_mem_named {i : Nat} (h1 : 1 ≤ i) (h2 : i ≤ 12) : 2 ^ i ∈ namedMasks := by
+  have : i = 1 ∨ i = 2 ∨ i = 3 ∨ i = 4 ∨ i = 5 ∨ i = 6 ∨ i = 7 ∨ i = 8 ∨ i = 9 ∨ i = 10 ∨ i = 11 ∨ i = 12 := by omega
+  rcases this with h | h | h | h | h | h | h | h | h | h | h | h <;> subst h <;> decide
+
+/-- a filter made of known status bits (bits 1..12) is written and read back unchanged -/
+theorem widen_known (m : Nat) (hlt : m < 8192) (heven : m % 2 = 0) : widen m = m := by
+  unfold widen
+  split
+  · rfl
+  · apply Nat.eq_of_testBit_eq
+    intro i
+    rw [testBit_foldl_lor]
+    simp only [Nat.zero_testBit, Bool.false_or]
+    cases hm : m.testBit i with
+    | true =>
+      have hi0 : i ≠ 0 := by
+        intro h0; subst h0
+        rw [Nat.testBit_zero] at hm
+        simp [heven] at hm
+      have hi12 : i ≤ 12 := by
+        apply Classical.byContradiction
+        intro hgt
+        have : m < 2 ^ i := Nat.lt_of_lt_of_le hlt (by
+          have : 2 ^ 13 ≤ 2 ^ i := Nat.pow_le_pow_right (by decide) (by omega)
+          simpa using this)
+        rw [Nat.testBit_lt_two_pow this] at hm
+        exact absurd hm (by decide)
+      refine List.any_eq_true.mpr ⟨2 ^ i, ?_, ?_⟩
+      · simp only [List.mem_filter]
+        exact ⟨two_pow_mem_named (by omega) hi12, by simp [and_two_pow_of_testBit hm]⟩
+      · simp
+    | false =>
+      apply Bool.eq_false_iff.mpr
+      intro hany
+      obtain ⟨k, hk, hbit⟩ := List.any_eq_true.mp hany
+      simp only [List.mem_filter, beq_iff_eq] at hk
+      have : (k &&& m).testBit i = true := by rw [hk.2]; exact hbit
+      rw [Nat.testBit_and, hm] at this
+      simp at this
+
 theorem metaOf_toQueryMeta (o : Opts) : metaOf (toQueryMeta o) = metaOf o.metadata := by
   simp [metaOf, toQueryMeta, List.filter_filter]
 
@@ -640,8 +658,13 @@ theorem query_roundtrip (o : Opts) : fromQuery (toQuery o) (toQueryMeta o) = som
   unfold toQuery
   cases he : (o.expire == Expiry.zero) <;> cases hu : o.update <;> cases ho : o.origins.isEmpty <;>
     cases hn : (o.name == 0) <;> cases ha : o.ualloc.isEmpty <;>
-    simp_all [assemble, getq, List.find?, M.mode, M.factors, M.ualloc, M.expiry, intParam, natParam,
+    simp_all [assemble, getq, List.find?, M.mode, M.factors, M.ualloc, M.expiry, M.expireIn, hasGarbled, intParam, natParam,
       nameParam, optCidParam, natsParam, normOpts, List.filterMap_map]
+
+theorem hasGarbled_toQuery (o : Opts) : hasGarbled (toQuery o) = false := by
+  unfold toQuery hasGarbled
+  cases he : (o.expire == Expiry.zero) <;> cases hu : o.update <;> cases ho : o.origins.isEmpty <;>
+    cases hn : (o.name == 0) <;> cases ha : o.ualloc.isEmpty <;> simp_all
 
 def segOK (s : Seg) : Prop := s.txt ≠ "" ∧ s.txt ≠ "recover" ∧ s.txt ≠ "." ∧ s.txt ≠ ".."
 
@@ -684,7 +707,7 @@ syntax "route_eval" : tactic
 macro_rules
   | `(tactic| route_eval) =>
     `(tactic| simp [router, unclean, route, Gen.routes, matchPat, lit, Handler.ofName, mkReq, runHandler, call, isLocal, getq,
-        boolQ, varSeg, parseCid, Option.bind, pick, fromQuery, assemble, M.mode, M.factors, M.ualloc, M.expiry, intParam, natParam, nameParam, optCidParam, natsParam, metaOf, normMeta, pinWithOpts, *])
+        boolQ, varSeg, parseCid, Option.bind, pick, fromQuery, assemble, M.mode, M.factors, M.ualloc, M.expiry, M.expireIn, hasGarbled, intParam, natParam, nameParam, optCidParam, natsParam, metaOf, normMeta, pinWithOpts, *])
 
 def CliHolds (cfg : CliCfg) (c : Call) : Prop :=
   cliHolds cfg c (clientCall Gen.chain Gen.routes cfg c).1 (clientCall Gen.chain Gen.routes cfg c).2 = true
@@ -777,7 +800,7 @@ syntax "route_eval_q" : tactic
 macro_rules
   | `(tactic| route_eval_q) =>
     `(tactic| simp [router, unclean, route, Gen.routes, matchPat, lit, Handler.ofName, mkReq, runHandler, call,
-        varSeg, restSegs, parseCid, parsePinPath, Option.bind, query_roundtrip, *])
+        varSeg, restSegs, parseCid, parsePinPath, Option.bind, query_roundtrip, hasGarbled_toQuery, *])
 
 theorem client_pin (cfg : CliCfg) (s : Seg) (o : Opts) (hs : segOK s) (c : Nat) (hc : s.cid = some c)
     (ho : o.origins = []) : CliHolds cfg (.pin s o) := by
@@ -888,7 +911,9 @@ theorem client_pinPath (cfg : CliCfg) (p : List Seg) (o : Opts) (hs : ∀ s ∈ 
       query_roundtrip o
     have hpo : pathOf pinsPath (mkReq cfg "POST" (lit "pins" :: k :: first :: more) (toQuery o) (toQueryMeta o) .none).segs =
         some (pathString (k :: first :: more)) := hpath
-    simp [runHandler, parsePinPath, hq, hpo, call]
+    have hg : hasGarbled (mkReq cfg "POST" (lit "pins" :: k :: first :: more) (toQuery o) (toQueryMeta o) .none).query = false :=
+      hasGarbled_toQuery o
+    simp [runHandler, parsePinPath, hq, hpo, hg, call]
 
 theorem client_unpinPath (cfg : CliCfg) (p : List Seg) (hs : ∀ s ∈ p, segOK s) :
     CliHolds cfg (.unpinPath p) := by
@@ -911,9 +936,10 @@ theorem client_unpinPath (cfg : CliCfg) (p : List Seg) (hs : ∀ s ∈ p, segOK 
         some (pathString (k :: first :: more)) := hpath
     have hq : fromQuery (mkReq cfg "DELETE" (lit "pins" :: k :: first :: more) [] [] .none).query
         (mkReq cfg "DELETE" (lit "pins" :: k :: first :: more) [] [] .none).md = some (normOpts (pinCid 0).opts) := by
-      simp [mkReq, fromQuery, assemble, M.mode, M.factors, M.ualloc, M.expiry, intParam, natParam, nameParam, optCidParam,
+      simp [mkReq, fromQuery, assemble, M.mode, M.factors, M.ualloc, M.expiry, M.expireIn, hasGarbled, intParam, natParam, nameParam, optCidParam,
         natsParam, metaOf, normMeta, getq, normOpts, pinCid]
-    simp [runHandler, parsePinPath, hq, hpo]
+    have hg : hasGarbled (mkReq cfg "DELETE" (lit "pins" :: k :: first :: more) [] [] .none).query = false := rfl
+    simp [runHandler, parsePinPath, hq, hpo, hg]
 
 /-! ### small facts about the generated chain used by Props -/
 
